@@ -60,7 +60,7 @@ const (
 	reviewedGts   = "allLocator asComplete bytesIndexAll lowerBytes checkStrand filterLocator flattenLocations flattenRegion insert invertSegments locationDelimiter locationLocator mapHeadHead mapHeadTail mapTailTail multipleLocationParser parseAmbiguous parseBetween parseComplement parseJoin parseOrder parseRange qualifierFilter rangeCompare rangeOverlap rangeWithin relativeLocator replaceBytes resizeLocator selectorFilter shiftSelector toQualifier tryExpand tryLocation tryShift trySlice"
 	reviewedSeqio = "checkDate detectWriter dig expectNoMoreResidues featureKeylineParser fromOriginLength genbankAccessionParser genbankCommentParser genbankContigParser genbankDBLinkPairParser genbankDBLinkParser genbankDefinitionParser genbankExtraFieldParser genbankFeatureParser genbankFieldBodyParser genbankFieldFormatter genbankFieldLineParser genbankFieldNameParser genbankGenericFieldParser genbankGenericSubfieldParser genbankKeywordsParser genbankReferenceParser genbankReferenceSubfieldParser genbankSourceParser genbankSubfieldNameParser genbankVersionParser isLeapYear literalQualifierParser literalQualifierValueParser makeGenbankOriginParser parseReferenceInfo qualifierNameParser quotedQualifierParser searchString slowGenBankOriginParser toOriginLength tryAllParsers validateOrigin"
 	reviewedCache = "makeSum"
-	reviewedMain  = "annotateFunc asPicker attach cacheListFunc cachePathFunc cachePurgeFunc clearFunc complementFunc containsRegion defineFunc deleteFunc encodePayload encodeToString extractFunc formatCSV gtsCacheDir infixFunc insertFunc joinFunc lengthFunc mustAtoi newHash newIODelegate pickAfter pickAll pickAny pickBefore pickBetween pickFunc pickOne queryFunc repairFunc reverseFunc rotateFunc searchFunc selectFunc sortFunc splitFunc summaryFunc"
+	reviewedMain  = "annotateFunc asPicker attach seekable cacheListFunc cachePathFunc cachePurgeFunc clearFunc complementFunc containsRegion defineFunc deleteFunc encodePayload encodeToString extractFunc formatCSV gtsCacheDir infixFunc insertFunc joinFunc lengthFunc mustAtoi newHash newIODelegate pickAfter pickAll pickAny pickBefore pickBetween pickFunc pickOne queryFunc repairFunc reverseFunc rotateFunc searchFunc selectFunc sortFunc splitFunc summaryFunc"
 )
 
 func init() {
